@@ -16,6 +16,7 @@ import (
 
 type clause struct {
 	Kind  string // requires, ensures, decreases, loopinv, loopdec, loopmod
+	Layer string // "" = base contract; otherwise the property whose separate verification layer the clause belongs to
 	Label string // ensures label, e.g. C17.table
 	Loop  int
 	Src   string
@@ -62,6 +63,7 @@ type contract struct {
 	Pure      bool     // modifies nothing (checked against the mod-set analysis for module functions)
 	Modifies  []string // heap keys; nil = computed
 	NoReturn  bool
+	UnreachableLayer string
 	Unreachable bool // the precondition (with the receiver's type) is unsatisfiable: never called under its contract
 	File      string
 	Line      int
@@ -129,7 +131,15 @@ func (db *contractDB) loadContractFile(path, pkgPath string) error {
 	var cur *contract
 	for _, rc := range raws {
 		kw := clauseKw.FindString(rc.text)
-		rest := strings.TrimSpace(rc.text[len(kw):])
+		rest := rc.text[len(kw):]
+		layer := ""
+		if strings.HasPrefix(rest, "[") {
+			if k := strings.Index(rest, "]"); k > 0 {
+				layer = strings.TrimSpace(rest[1:k])
+				rest = rest[k+1:]
+			}
+		}
+		rest = strings.TrimSpace(rest)
 		fail := func(f string, a ...any) error {
 			return fmt.Errorf("%s:%d: %s", path, rc.line, fmt.Sprintf(f, a...))
 		}
@@ -197,7 +207,7 @@ func (db *contractDB) loadContractFile(path, pkgPath string) error {
 			if cur == nil {
 				return fail("clause %q outside a contract", kw)
 			}
-			cl := &clause{File: path, Line: rc.line}
+			cl := &clause{File: path, Line: rc.line, Layer: layer}
 			switch kw {
 			case "requires":
 				cl.Kind, cl.Src = "requires", rest
@@ -246,6 +256,7 @@ func (db *contractDB) loadContractFile(path, pkgPath string) error {
 				continue
 			case "unreachable":
 				cur.Unreachable = true
+				cur.UnreachableLayer = layer
 				continue
 			case "modifies":
 				cur.Modifies = append(cur.Modifies, splitList(rest)...)
@@ -409,4 +420,27 @@ func loadAllContracts(repo, modPath, specsDir string) (*contractDB, error) {
 		}
 	}
 	return db, nil
+}
+
+// clauses returns the clauses of the given kind visible in a verification layer (base clauses always).
+func (ct *contract) clausesFor(layer string) []*clause {
+	var out []*clause
+	for _, cl := range ct.Clauses {
+		if cl.Layer == "" || cl.Layer == layer {
+			out = append(out, cl)
+		}
+	}
+	return out
+}
+
+func (ct *contract) hasLayer(layer string) bool {
+	if ct.Unreachable && ct.UnreachableLayer == layer {
+		return true
+	}
+	for _, cl := range ct.Clauses {
+		if cl.Layer == layer {
+			return true
+		}
+	}
+	return false
 }
